@@ -1295,3 +1295,72 @@ def m_os_walk(eng, args, kwargs, st, node):
     n = eng.ctx.fresh('walk_len', INT)
     st.assume(Ge(n, IntV(0)))
     return [(VRecList(n, 'WalkEntry', eng.ctx.fresh_name('walk')), st)]
+
+
+# ------------------------------------------------------------------ explicit iterators (line_iter = enumerate(lines))
+@func(enumerate)
+def m_enumerate(eng, args, kwargs, st, node):
+    """enumerate(xs) used as a VALUE (an iterator that several pieces of code advance): a heap record EnumIter with the
+    immutable sequence and the number of items consumed so far."""
+    seq, elem = eng.seq_of(args[0], st)
+    start = args[1] if len(args) > 1 else kwargs.get('start', VInt(IntV(0)))
+    return [(st.alloc(HInst('EnumIter', {'seq': VSeq(seq, elem), 'pos': VInt(IntV(0)), 'start': start})), st)]
+
+
+@func(next)
+def m_next(eng, args, kwargs, st, node):
+    it = args[0]
+    o = st.heap.get(it.loc) if isinstance(it, VRef) else None
+    if not (isinstance(o, HInst) and o.cls == 'EnumIter'):
+        raise Undecided('next(%r)' % (it,), node)
+    seq, pos = o.fields['seq'], o.fields['pos']
+    out = []
+    for r, s in eng._safe_result(Lt(pos.t, Len(seq.t)), NONE, StopIteration, st, node):
+        if isinstance(r, Raised):
+            out.append((r, s))
+            continue
+        o2 = s.heap[it.loc]
+        f = dict(o2.fields)
+        f['pos'] = VInt(Add(pos.t, IntV(1)))
+        s.heap[it.loc] = HInst(o2.cls, f, o2.view)
+        out.append((VTuple([VInt(Add(o.fields['start'].t, pos.t)), wrap(At(seq.t, pos.t), seq.elem)]), s))
+    return out
+
+
+def regex_span_fns(pattern, flags):
+    """start / end of the first match of re.search(pattern, s, flags) as two uninterpreted functions of the text."""
+    import hashlib
+    h = hashlib.sha1(('span|%r|%d' % (pattern, int(flags))).encode()).hexdigest()[:10]
+    a, b = 're_start_%s' % h, 're_end_%s' % h
+    smt.CTX.fun(a, [STR], INT)
+    smt.CTX.fun(b, [STR], INT)
+    return a, b
+
+
+def _re_search_obj(eng, args, kwargs, st, node):
+    """re.search returning a match object whose start()/end() are used: Optional[ReMatch]."""
+    pat, s = args[0], args[1]
+    flags = kwargs.get('flags', args[2] if len(args) > 2 else None)
+    p, f = _regex_key(eng, pat, flags, st)
+    name = regex_pred('search', p, f)
+    a, b = regex_span_fns(p, f)
+    eng.trusted_used.add('stdlib:re.search(%r, flags=%d): uninterpreted predicate %s and span functions' % (p, f, name))
+    from .symexec import VOptSym
+    hit = eng.ctx.app(name, s.t)
+    m = st.alloc(HInst('ReMatch', {'start_': VInt(eng.ctx.app(a, s.t)), 'end_': VInt(eng.ctx.app(b, s.t))}))
+    st.assume(Implies(hit, And(Le(IntV(0), eng.ctx.app(a, s.t)), Le(eng.ctx.app(a, s.t), eng.ctx.app(b, s.t)),
+                               Le(eng.ctx.app(b, s.t), Len(s.t)))))
+    return [(VOptSym(Not(hit), m), st)]
+
+
+FUNCS[_re.search] = _re_search_obj
+
+
+@method('ReMatch.start')
+def rematch_start(eng, args, kwargs, st, node):
+    return [(st.heap[args[0].loc].fields['start_'], st)]
+
+
+@method('ReMatch.end')
+def rematch_end(eng, args, kwargs, st, node):
+    return [(st.heap[args[0].loc].fields['end_'], st)]
